@@ -214,6 +214,24 @@ func runC08(c *harness.Ctx, idx int) {
 		}
 	}
 	steady := append([]*c08Item(nil), c08Steady...)
+	{
+		// several values of one type whose maps take the generic (iterator) routines: concurrent
+		// encodes of different values must not see each other's entries
+		bm := &schema.Struct{UnknownIdx: -1, Fields: []*schema.Field{
+			{ID: 1, Req: schema.Default, T: schema.MapOf(schema.Scalar(schema.String), schema.Scalar(schema.Binary))},
+			{ID: 2, Req: schema.Default, T: schema.MapOf(schema.Scalar(schema.I64), schema.Scalar(schema.Binary))},
+			{ID: 3, Req: schema.Default, T: schema.MapOf(schema.Scalar(schema.Double), schema.Scalar(schema.I32))},
+			{ID: 4, Req: schema.Default, T: schema.ListOf(schema.MapOf(schema.Scalar(schema.String), schema.Scalar(schema.Binary)))},
+		}}
+		bm.Build()
+		for i := 0; i < 3; i++ {
+			it := newC08Item(r, bm)
+			for op := 0; op < 5; op++ {
+				it.use(op)
+			}
+			steady = append(steady, it)
+		}
+	}
 	for i := 0; i < 4; i++ {
 		it := newC08Item(r, gen.RandomStruct(r, &gen.TypeCfg{MaxDepth: 2, MaxFields: 5, Unknown: true, Required: true, ZooNest: true}, 0))
 		for op := 0; op < 5; op++ {
